@@ -54,6 +54,7 @@ std::string of_event(const Event& e) {
         case staj_events::end_object: return "EO";
         case staj_events::begin_array: return "BA:" + tagstr(e.tag());
         case staj_events::end_array: return "EA";
+        case staj_events::id: { std::string d = std::to_string(e.template get<uint64_t>(ec)); return "K:" + hex(d.data(), d.size()); }   // an integer map key: the visitor receives its decimal text
         case staj_events::key: { auto s = e.template get<jsoncons::string_view>(ec); return "K:" + hex(s.data(), s.size()); }
         case staj_events::string_value: { auto s = e.template get<jsoncons::string_view>(ec); return "S:" + hex(s.data(), s.size()) + ":" + tagstr(e.tag()); }
         case staj_events::byte_string_value: { auto s = e.template get<jsoncons::byte_string_view>(ec); return "X:" + hex(s.data(), s.size()) + ":" + (e.tag() == jsoncons::semantic_tag::ext ? "ext" + std::to_string(e.ext_tag()) : tagstr(e.tag())); }
